@@ -8,8 +8,25 @@ import (
 	"time"
 
 	"github.com/whatap/golib/config"
+	"github.com/whatap/golib/config/conffile"
 	"verif/harness/vh"
 )
+
+// re-entrant observers: what the callback does besides counting
+var reKinds = []string{"registers-observer", "reads-getters", "calls-setvalues", "triggers-reload"}
+
+// dropLine removes one physical line of text (an external edit that removes a key or a comment).
+func dropLine(r *vh.Rng, text string) (string, bool) {
+	ls := strings.SplitAfter(text, "\n")
+	if len(ls) > 0 && ls[len(ls)-1] == "" {
+		ls = ls[:len(ls)-1]
+	}
+	if len(ls) < 2 {
+		return text, false
+	}
+	i := r.Intn(len(ls))
+	return strings.Join(append(append([]string{}, ls[:i]...), ls[i+1:]...), ""), true
+}
 
 // sameLenVariant changes one character of text without changing its byte length (and without
 // creating a \u escape): the last ASCII letter or digit becomes '7' (or '8').
@@ -55,6 +72,27 @@ func (h *harness) streamHistory(n, maxSteps int) {
 		nsInSec := int64(0)
 		haveInstant := false
 		dead := false
+		// half of the histories keep the file inside the well-formed class of the write-back theorem, so
+		// that SetValues can be interleaved with external edits and judged exactly
+		wf := h.rng.Chance(50)
+		exotic := 15
+		if wf {
+			exotic = 0
+		}
+		watchdog := 4 * time.Second
+		if h.env.Thorough {
+			watchdog = 12 * time.Second
+		}
+		reKind := ""
+		if h.rng.Chance(35) {
+			reKind = h.rng.PickStr(reKinds)
+			if h.hangs[reKind] >= 2 {
+				reKind = ""
+			}
+		}
+		if reKind == "calls-setvalues" {
+			wf, exotic = true, 0
+		}
 		add := func(c check) {
 			if !dead {
 				c.group = grp
@@ -73,11 +111,18 @@ func (h *harness) streamHistory(n, maxSteps int) {
 					}
 				}
 			}
+			if !sameLen && wf && exists && h.rng.Chance(30) {
+				// an external edit that removes one line (a key or a comment)
+				if v, ok := dropLine(h.rng, curText); ok {
+					text, sameLen = v, true
+					h.rep.Count("history:edit-removes-line")
+				}
+			}
 			for tries := 0; !sameLen; tries++ {
-				if !h.mustLoadFatal && h.rng.Chance(4) {
+				if !wf && !h.mustLoadFatal && h.rng.Chance(4) {
 					text = genText(h.rng, 3, 10) + "\n" + h.rng.PickStr(malformedTexts[:6])
 				} else {
-					text = genText(h.rng, 6, 15)
+					text = genText(h.rng, 6, exotic)
 				}
 				if strings.Contains(text, "${") {
 					continue
@@ -128,7 +173,7 @@ func (h *harness) streamHistory(n, maxSteps int) {
 				haveInstant = true
 			}
 			h.rep.Count("history:edit-" + mode)
-			if sameLen {
+			if sameLen && len(text) == len(curText) {
 				h.rep.Count("history:edit-same-length")
 			}
 			curNs, curSize = statNs(path)
@@ -142,7 +187,7 @@ func (h *harness) streamHistory(n, maxSteps int) {
 		observer := config.NewConfigObserver()
 		var targets []*obsTarget
 		nextID := 1
-		register := func(name, when string) {
+		register := func(name, when string) *obsTarget {
 			for _, t := range targets {
 				if t.name == name && t.registered {
 					t.registered = false // replaced
@@ -155,14 +200,87 @@ func (h *harness) streamHistory(n, maxSteps int) {
 			logOp("observer-add", "name", name, "target", t.id, "when", when)
 			h.rep.Count("history:observer-" + when)
 			add(check{line: fmt.Sprintf("O %s %d", encStr(name), t.id), want: "ok"})
+			return t
 		}
 		for k := h.rng.Intn(3); k > 0; k-- {
 			register(fmt.Sprintf("pre%d", k), "before-construction")
 		}
+		// a re-entrant observer: its callback registers another observer / reads getters / calls SetValues /
+		// triggers another reload.  Targets registered from inside a callback ("children") are not part of
+		// the model (whether a registry entry added during a round is visited in that round is unspecified);
+		// they are judged directly: from the next round on they hear what everybody hears.
+		var children []*obsTarget
+		childSince := map[*obsTarget]int{} // the round (reload number) in which the child appeared
+		round := 0
+		nested := false
+		makeReentrant := func(t *obsTarget) {
+			t.light = true
+			kind := reKind
+			t.hook = func(c config.Config) {
+				switch kind {
+				case "registers-observer":
+					if len(children) == 0 {
+						ch := &obsTarget{name: "child-of-" + t.name, when: "from-a-callback", registered: true, light: true}
+						children = append(children, ch)
+						childSince[ch] = round
+						observer.Add(ch.name, ch)
+					}
+				case "reads-getters":
+					for _, k := range c.GetKeys() {
+						c.GetValue(k)
+					}
+					c.GetInt("k", 1)
+					c.GetStringArray("a", "", ",")
+					_ = c.String()
+				case "calls-setvalues":
+					if t.count <= 2 {
+						m := map[string]string{"written_by_observer": fmt.Sprint(t.count)}
+						c.SetValues(&m)
+					}
+				case "triggers-reload":
+					if fc, ok := c.(*conffile.FileConfig); ok && !nested {
+						nested = true
+						fc.ReloadNowForVerif()
+						nested = false
+					}
+				}
+			}
+		}
+		reLate := false
+		if reKind != "" {
+			h.rep.Count("history:reentrant-" + reKind)
+			if h.rng.Chance(60) {
+				makeReentrant(register("reentrant", "before-construction"))
+			} else {
+				reLate = true
+			}
+		}
+		hung := false // after a hang nothing of this configuration / registry is touched again
+		hang := func(what string) {
+			hung = true
+			h.hangs[reKind]++
+			key := "reload:hangs"
+			if reKind != "" {
+				key = "reload:hangs-when-observer-" + reKind
+			}
+			h.rep.Fail("property", key,
+				fmt.Sprintf("%s did not return within %v (re-entrant observer: %q): the reload goroutine is stuck, the file is never tracked again", what, watchdog, reKind),
+				map[string]interface{}{"history": snapshot(), "reentrant_observer": reKind})
+			dead = true
+		}
 		if h.rng.Chance(85) {
 			edit(false)
 		}
-		ce := newCfgObs(dir, observer)
+		var ce *cfgEnv
+		logOp("construct")
+		if oc := vh.GuardTimeout(watchdog, func() { ce = newCfgObs(dir, observer) }); oc.Timeout || ce == nil {
+			if oc.Timeout {
+				hang("the constructor's reload")
+			} else {
+				h.rep.Fail("property", "construct:panic", "NewForVerif panicked: "+oc.Panic, map[string]interface{}{"history": snapshot()})
+			}
+			continue // this configuration object is abandoned (its goroutine is leaked on purpose)
+		}
 		add(check{line: fmt.Sprintf("O %s 0", encStr("verif")), want: "ok"}) // registered before the constructor's reload
 		targets = append(targets, ce.obs)
 		// the model registers "verif" after the pre-observers but before the first reload: same order of ids? ids are
@@ -174,6 +292,8 @@ func (h *harness) streamHistory(n, maxSteps int) {
 			h.rep.Count("history:reload")
 			hs := snapshot()
 			cnt := ce.obs.count
+			thisRound := round
+			round++
 			if dead {
 				return
 			}
@@ -247,6 +367,25 @@ func (h *harness) streamHistory(n, maxSteps int) {
 					dead = true
 				}
 			}
+			for _, ch := range children {
+				d := ch.count - ch.prev
+				ch.prev = ch.count
+				if dead {
+					continue
+				}
+				if childSince[ch] == thisRound {
+					// the round in which it was registered: 0 or 1 calls
+					if d > 1 {
+						h.rep.Fail("property", "observer:notified-too-often", fmt.Sprintf("observer %q registered from a callback was called %d times in one round", ch.name, d), map[string]interface{}{"history": hs})
+						dead = true
+					}
+				} else if d != refDelta {
+					h.rep.Fail("property", "observer:registered-from-a-callback-not-notified",
+						fmt.Sprintf("observer %q (registered from inside another observer's callback) was called %d times by this reload, the observer registered before construction %d times", ch.name, d, refDelta),
+						map[string]interface{}{"history": hs})
+					dead = true
+				}
+			}
 			prevCount = cnt
 			if dead {
 				return // the rest of this history is not compared with the model
@@ -278,11 +417,123 @@ func (h *harness) streamHistory(n, maxSteps int) {
 				g := getterCall{kind: "v", key: k}
 				h.addGetter(ce, g, grp, func() interface{} { return hs })
 			}
+			// an observer may have written the file from inside its callback: what the file holds now
+			if exists {
+				if nb, err := os.ReadFile(path); err == nil {
+					ns, sz := statNs(path)
+					if string(nb) != curText || ns != curNs {
+						curText, curNs, curSize = string(nb), ns, sz
+						logOp("file-written-by-observer", "text", curText, "mtime_ns", curNs)
+						h.rep.Count("history:file-written-by-observer")
+						add(check{line: fmt.Sprintf("E %d %s", curNs, encStr(curText)), want: "ok"})
+					}
+				}
+			}
+		}
+		reload := func() {
+			if dead {
+				return
+			}
+			if oc := vh.GuardTimeout(watchdog, func() { ce.c.ReloadNowForVerif() }); oc.Timeout {
+				logOp("reload-hangs")
+				hang("reload()")
+				return
+			} else if !oc.OK() {
+				h.rep.Fail("property", "reload:panic", "reload panicked: "+oc.Panic, map[string]interface{}{"history": snapshot()})
+				dead = true
+				return
+			}
+			afterReload()
+		}
+		svN := 0
+		doSetValues := func() {
+			if dead || !exists || !wf {
+				return
+			}
+			before, _, err := libRead(curText)
+			if err != nil {
+				return
+			}
+			kvs := map[string]string{}
+			for n := 1 + h.rng.Intn(2); n > 0; n-- {
+				var k string
+				switch x := h.rng.Intn(100); {
+				case x < 45:
+					svN++
+					k = fmt.Sprintf("set%d", svN) // unrelated new key
+				case x < 75 && len(before) > 0:
+					ks := make([]string, 0, len(before))
+					for fk := range before {
+						ks = append(ks, fk)
+					}
+					sort.Strings(ks)
+					k = ks[h.rng.Intn(len(ks))]
+				default:
+					// a key the configuration still holds although the file no longer has it
+					k = "set_removed"
+					ks := ce.c.GetKeys()
+					sort.Strings(ks)
+					for _, mk := range ks {
+						if _, inFile := before[mk]; !inFile && wfKey(mk) {
+							k = mk
+							break
+						}
+					}
+				}
+				if !wfKey(k) {
+					continue
+				}
+				kvs[k] = h.rng.PickStr(setValues)
+			}
+			if len(kvs) == 0 {
+				return
+			}
+			old := curText
+			arg := map[string]string{}
+			for k, v := range kvs {
+				arg[k] = v
+			}
+			logOp("setvalues", "kvs", kvs)
+			h.rep.Count("history:setvalues")
+			hs := snapshot()
+			if oc := vh.GuardTimeout(watchdog, func() { ce.c.SetValues(&arg) }); oc.Timeout {
+				h.rep.Fail("property", "setvalues:hangs", "SetValues did not return", map[string]interface{}{"history": hs})
+				dead, hung = true, true
+				return
+			} else if !oc.OK() {
+				h.rep.Fail("property", "writeback:panic", "SetValues panicked: "+oc.Panic, map[string]interface{}{"history": hs})
+				dead = true
+				return
+			}
+			nb, err := os.ReadFile(path)
+			if err != nil {
+				h.rep.Fail("property", "writeback:file-missing", "the configuration file is gone after SetValues", map[string]interface{}{"history": hs})
+				dead = true
+				return
+			}
+			newText := string(nb)
+			// the property, directly: the write merges into what the FILE holds at the time of the write
+			for _, b := range evalWriteProperty(old, newText, kvs) {
+				key := map[string]string{"merge": "writeback:other-key-not-file-value", "comment": "writeback:comment-line-rewritten", "order": "writeback:order"}[b[0]]
+				h.rep.Fail("property", key,
+					"SetValues in the middle of a history (external edits since the last reload): "+b[1],
+					map[string]interface{}{"history": hs, "file_before": old, "kvs": kvs, "file_after": newText})
+				dead = true
+			}
+			line := fmt.Sprintf("S 1 - - [] %s %s", encStr(old), encPairs(sortedPairs(kvs)))
+			add(check{line: line, cmp: func(got string) bool { return matchWrite(newText, got) }, onDiff: func(got string) {
+				h.rep.Fail("correspondence", "writeback:model", "write-back model and implementation disagree (SetValues inside a history)",
+					map[string]interface{}{"history": hs, "file_before": old, "kvs": kvs, "file_after": newText, "model": vh.Clip(got, 1200)})
+			}})
+			curText = newText
+			curNs, curSize = statNs(path)
+			logOp("file-after-setvalues", "text", newText, "mtime_ns", curNs)
+			add(check{line: fmt.Sprintf("E %d %s", curNs, encStr(newText)), want: "ok"})
 		}
 		afterReload()
 		steps := 2 + h.rng.Intn(maxSteps)
 		lateN := 0
-		for s := 0; s < steps; s++ {
+		for s := 0; s < steps && !hung; s++ {
 			switch x := h.rng.Intn(100); {
 			case x < 34:
 				edit(false)
@@ -294,10 +545,19 @@ func (h *harness) streamHistory(n, maxSteps int) {
 				logOp("delete")
 				h.rep.Count("history:delete")
 				add(check{line: "D", want: "ok"})
+			case x < 66:
+				reload()
 			case x < 74:
-				ce.c.ReloadNowForVerif()
-				afterReload()
+				doSetValues()
+				if h.rng.Chance(30) {
+					doSetValues() // twice in a row
+				}
 			case x < 82:
+				if reLate {
+					reLate = false
+					makeReentrant(register("reentrant", "between-reloads"))
+					break
+				}
 				lateN++
 				when := "between-reloads"
 				if lateN == 1 && len(hist) <= 3 {
@@ -331,13 +591,17 @@ func (h *harness) streamHistory(n, maxSteps int) {
 			}
 		}
 		// the file has stopped changing: one more reload must make it visible
-		ce.c.ReloadNowForVerif()
-		afterReload()
+		reload()
+		if reKind == "calls-setvalues" && !hung {
+			reload() // … and what the observer wrote during that reload as well
+		}
 		h.rep.Case(fmt.Sprint(hist), len(hist) > 2)
 		if i < 2 {
 			h.rep.Sample(map[string]interface{}{"stream": "history", "ops": hist})
 		}
-		ce.c.Destroy()
+		if !dead {
+			ce.c.Destroy()
+		}
 	}
 }
 
